@@ -16,7 +16,7 @@ pub struct Scratch {
 
 impl Scratch {
     pub fn new(tag: &str) -> Result<Scratch, String> {
-        let dir = format!("/verif/target/tmp/{}-{}", tag, std::process::id());
+        let dir = format!("{}/target/tmp/{}-{}", crate::supervisor::verif_dir(), tag, std::process::id());
         std::fs::create_dir_all(&dir).map_err(|e| format!("cannot create scratch directory {}: {}", dir, e))?;
         Ok(Scratch { dir })
     }
